@@ -124,7 +124,19 @@ CHECKS["C10"] = dict(
     design="8/C10",
     note=TRUST + "cKDTree.query_ball_point contract assumed (exact in-ball index set); longer histories follow from the invariant.",
     technique="contract-based deductive verification: class invariant with ghost state over AST symbolic execution of call histories, assumed callee contract for the k-d tree, z3; bounded brute-force oracle as labelled stand-in")
+CHECKS["C11"] = dict(
+    category="proof",
+    text="PeriodicGrid.get_localgrid executed symbolically for point dimensions 1 (flat), 2, 3 and 1..dim lattice vectors on an object satisfying "
+         "the constructor's postcondition: completeness of the integer image range per lattice direction (lemma chain: reciprocal identity, "
+         "Cauchy-Schwarz, plane spacing, integrality of ceil/floor) for any sign/orientation; the tree is queried at the displaced centre, the "
+         "stored position is the parent point minus the displacement with the parent's weight and index; empty spheres give an empty LocalGrid; "
+         "the flat 1-D constructor establishes reciprocal vector, positive spacing and fractional extent. itertools.product / cKDTree by contract. "
+         "Bounded layer: brute-force image enumeration over random skewed/negative/long/short cells, wrapped or not.",
+    design="8/C11",
+    note=TRUST + "constructor postcondition for dimensions > 1 (SVD pseudo-inverse) assumed in the proof and checked natively; itertools.product and cKDTree contracts assumed.",
+    technique="contract-based deductive verification: AST symbolic execution with assumed callee contracts + lemma chains (NRA/LIA), z3; bounded brute-force oracle as labelled stand-in")
 BOUNDED_ONLY = {
+    "C09": ("8/C09", "band-limited decomposition/interpolation on atomic grids: angular integration, radial-component splines through knots, interpolant reproduces grid values, derivative self-consistency, polynomial reproduction, molecular interpolation"),
     "C07": ("8/C07", "molecular grid = weighted concatenation of atomic grids: index table, segments, weights = atweights x aim, views with store on/off, fan-out of from_size/from_preset/from_pruned against hand-built grids, default radial grids, end-to-end 1% clause on presets"),
     "C05": ("8/C05", "atomic grid structure: shell index table, per-shell scaling/Jacobian/orthogonal image, centre shift, rotation reproducibility, shell extraction, sector map, factorised integrals, every preset file"),
     "C02": ("8/C02", "EXHAUSTIVE: all 450 shipped (method, degree) pairs built five ways; size/degree pair, unit-sphere, exactness for all (l,m) against an own Y_lm oracle (quick: full degree for files <= 16000 points, else l <= 40; thorough: full degree)"),
